@@ -41,12 +41,29 @@ NEEDS.update({
  "R2_C11_2":"BoxedMontyForm::pow on a modulus with exactly one leading zero bit and a rare base/exponent pair (about 1 in 7500)",
  "R2_C11_3":"a DER INTEGER whose magnitude is exactly one octet too long",
 })
+NEEDS.update({
+ "R3_C16_1":"a fixed-capacity fmt sink that fills up in the middle of the binary digits of a Uint",
+ "R3_C16_2":"a forged ConstMontyForm record (binary or hex) whose payload is exactly the modulus",
+ "R3_C16_3":"the # flag used directly on a Limb (or a wrapper forwarding to it) holding a value with leading zero digits",
+ "R3_C18_1":"a Uint appended to a bounded RlpStream list (counted as two items)",
+ "R3_C18_2":"a full-width value whose top octet is exactly 0x80 (value_len one short of what encode_value writes)",
+ "R3_C18_3":"a der::Writer that refuses a full 8-octet chunk but still has room for the short tail (SliceWriter at one particular capacity)",
+ "R3_C19_1":"an RNG that fails at one particular call inside NonZero::try_random (error swallowed; a permanently failing RNG makes it spin forever)",
+ "R3_C19_2":"Limb::random_mod with a multi-byte modulus and a rejected first candidate (stale low bytes), seen in the distribution",
+ "R3_C19_3":"the infallible BoxedUint::random_mod with a modulus stored with whole zero high limbs (result precision from bits())",
+ "R3_C08_1":"a reused multiplier object: the second and later square_assign on the same BoxedMontyMultiplier",
+ "R3_C08_2":"m = 2^BITS-1 and an odd Montgomery representation, halving on the fixed-width forms",
+ "R3_C08_3":"negating a boxed zero (e.g. -(x - x)), or any negation for m = 1",
+ "R3_C12_1":"Odd::<BoxedUint>::random(rng, 0) after two cooperating edits (zero-limb BoxedUint, first_mut())",
+ "R3_C12_2":"a release-profile build and ConstCtOption::expect on a none value",
+ "R3_C12_3":"Odd::from_le_hex on a string with a non-hex character anywhere but the last two positions",
+})
 os.makedirs("/verif/seeded", exist_ok=True)
 rows=[]
 for name, needs in NEEDS.items():
     parts = name.split("_")
     prop, i = parts[-2], parts[-1]
-    src=f"/tmp/wt2_{prop}/seeded_out/{i}" if name.startswith("R2_") else f"/tmp/wt_{prop}/seeded_out/{i}"
+    src=f"/tmp/wt2_{prop}/seeded_out/{i}" if name.startswith("R2_") else (f"/tmp/wt3_{prop}/seeded_out/{i}" if name.startswith("R3_") else f"/tmp/wt_{prop}/seeded_out/{i}")
     res_p=f"/tmp/seed_logs/{name}.json"
     if not (os.path.isdir(src) and os.path.exists(res_p)):
         if not os.path.exists(f"/verif/seeded/{name}/meta.json"): print("missing", name)
